@@ -128,9 +128,9 @@ class TrampolinePart:
 
 
 def run(tier, seed, replay=None):
-    small = dict(quick=dict(preemptions=2, max_execs=1500), thorough=dict(preemptions=3, max_execs=40000), random_execs=(200, 4000))
+    small = dict(quick=dict(preemptions=2, max_execs=1000), thorough=dict(preemptions=3, max_execs=40000), random_execs=(200, 4000))
     parts = [
-        AtomicPart("eventloop", "scn_c06.cpp", LIBS, "eventloop", LOOP, quick=dict(preemptions=2, max_execs=2500)),
+        AtomicPart("eventloop", "scn_c06.cpp", LIBS, "eventloop", LOOP, quick=dict(preemptions=2, max_execs=2000)),
         AtomicPart("atomicqueue", "scn_c06.cpp", LIBS, "atomicqueue", AQ, quick=dict(preemptions=2, max_execs=2500)),
         AtomicPart("threadpool", "scn_c06.cpp", LIBS, "threadpool", POOL, **small),
         AtomicPart("newthread", "scn_c06.cpp", LIBS, "newthread", NT, **small),
